@@ -3,6 +3,7 @@ package main
 // C15 — telnet login hands over a clean stream and honours the dial deadline.
 
 import (
+	"go/token"
 	"go/types"
 	"strings"
 
@@ -339,6 +340,78 @@ func checkC15(c *Ctx, r *Report) {
 		} else {
 			o.Bad("the timeout no longer reaches DialContext as a context deadline")
 		}
+		// a duration parsed from the URL (dial_timeout) must be the one that reaches WithTimeout
+		for _, pd := range callsTo(fn, false, "time.ParseDuration") {
+			o := r.Add("C15-deadline", fnName(fn), "parsed dial_timeout reaches the context", c.pos(pd.Pos()))
+			reaches := false
+			for _, wt := range callsTo(fn, false, "context.WithTimeout", "context.WithDeadline") {
+				if dependsOn(wt.Common().Args[1], func(v ssa.Value) bool {
+					ex, ok := v.(*ssa.Extract)
+					return ok && ex.Tuple == pd.Value() && ex.Index == 0
+				}) {
+					reaches = true
+				}
+			}
+			if reaches {
+				o.OK("the duration passed to context.WithTimeout depends on the parsed value")
+			} else {
+				o.Bad("the duration parsed from the URL never reaches context.WithTimeout (shadowed or dropped): a dial_timeout given in the URL is ignored and a silent server blocks the dial")
+			}
+		}
+	}
+	// the returned type must keep reading through the login reader for as long as it may hold data
+	if fn := c.Func(pkg, "(Conn).Read"); fn == nil {
+		if fn = c.Func(pkg, "(*Conn).Read"); fn == nil {
+			r.Add("C15-buffer", "telnet.Conn", "Read discipline", pkg).Bad("telnet.Conn has no Read of its own")
+		}
+	}
+	for _, name := range []string{"(Conn).Read", "(*Conn).Read"} {
+		fn := c.Func(pkg, name)
+		if fn == nil || fn.Synthetic != "" {
+			continue
+		}
+		o := r.Add("C15-buffer", fnName(fn), "the login reader is never bypassed or dropped while it may hold data", c.pos(fn.Pos()))
+		bad := ""
+		eachInstr(fn, func(_ *ssa.BasicBlock, _ int, in ssa.Instruction) {
+			switch x := in.(type) {
+			case ssa.CallInstruction:
+				// reading the embedded connection directly is only allowed when there is no reader
+				if x.Common().IsInvoke() && x.Common().Method.Name() == "Read" && strings.HasSuffix(pathOf(x.Common().Value), ".Conn") {
+					okNil := false
+					for _, cd := range condsAt(in.Block()) {
+						if b, ok := cd.V.(*ssa.BinOp); ok && isNilConst(b.Y) && strings.HasSuffix(pathOf(b.X), ".rd") && (b.Op == token.EQL) == cd.Truth {
+							okNil = true
+						}
+					}
+					if !okNil {
+						bad = "the embedded connection is read directly at " + c.pos(in.Pos()) + " although the login reader may still hold bytes"
+					}
+				}
+			case *ssa.Store:
+				if strings.HasSuffix(pathOf(x.Addr), ".rd") {
+					drained := false
+					for _, cd := range condsAt(in.Block()) {
+						if b, ok := cd.V.(*ssa.BinOp); ok {
+							if call, isCall := b.X.(*ssa.Call); isCall && callName(&call.Call) == "bufio.Reader.Buffered" {
+								if k, isC := constInt(b.Y); isC && k == 0 && (b.Op == token.EQL) == cd.Truth {
+									drained = true
+								}
+							}
+						}
+					}
+					if !drained {
+						bad = "the login reader is replaced or dropped at " + c.pos(in.Pos()) + " without Buffered() == 0 being established: bytes it still holds are lost"
+					}
+				}
+			}
+		})
+		if bad == "" {
+			o.OK("every read goes through the reader unless it is nil; the reader is never dropped")
+		} else {
+			o.Bad("%s", bad)
+		}
+	}
+	if false {
 	}
 	r.NotCov = append(r.NotCov, "success of the login for every callsign/password", "prompt recognition", "blocking writes during the login")
 }
